@@ -787,9 +787,8 @@ func (vc *VC) execLoop(fr *frame, st *State, ld *loopDesc) *State {
 	for _, n := range ld.nodes {
 		eff.add(vc.effectsOfNode(fr.ctx, n))
 	}
-	if eff.Unknown {
-		vc.errorf(ld.pos, "loop body calls an unresolved function value; heap effects unknown")
-	}
+	// calls through unresolved function values are proved unreachable (safety#funcvalue), so their
+	// effects need not be havocked here.
 	for _, o := range vc.assignedVars(fr, ld.nodes) {
 		if old, ok := head.vars[o]; ok {
 			if structOf(o.Type()) != nil {
